@@ -23,12 +23,19 @@ CLAIM = dict(
           "with-structured programs: a resolved argument is the explicit one, else that of the innermost context setting it, "
           "else the default, which is the one the source pairs with the parameter (precedence, default_param, default_kwonly, "
           "passing_styles_agree); a call with a Required argument left is rejected and emits nothing, and is "
-          "accepted otherwise (required_rejected, accepted_complete, rejected_sends_nothing); after any block - any nesting, normal exit, "
-          "exception at any depth, method bodies that fail after sending, any sequence of before_close callbacks (which may call "
-          "methods, open blocks, update the context or raise), failing stop signal - the stack is exactly the one before (restore, "
-          "restore_application, block_events, failing_call_unwinds); an application block ends with a stop signal resolved to the "
-          "block's application before any user callback runs, nested application blocks stop the inner application first and "
-          "then the outer one (application_stops, application_events, nested_applications_stop_inner_first); the connection used "
+          "accepted otherwise (required_rejected, accepted_complete, rejected_sends_nothing); the context stack holds context OBJECTS "
+          "(heap of objects + stack of object names; `o = c(..)` / `o = mc.application(..)` create, `with o:` enters - a fresh "
+          "object, one that is ALREADY ACTIVE anywhere below, or one used before): after any block - any object, any nesting, any "
+          "well-bracketed enter/exit history with repeated objects, normal exit, exception at any depth, method bodies that fail "
+          "after sending, any sequence of before_close callbacks (which may call methods, enter blocks, update the context or "
+          "raise), failing stop signal - the stack of active contexts is exactly the one before: the block removes its own, newest "
+          "entry and nothing else (exec_stack / restore, restore_block, restore_application, restore_inner, block_events, "
+          "failing_call_unwinds), and the arguments in force are those before it unless update_current_context changed an object "
+          "that is also active below (restore_arguments, restore_arguments_static, touched_subset); leaving the block of an "
+          "application object sends the stop signal resolved to that object's application before any user callback runs, also "
+          "when the object is entered again inside another application block; nested application blocks stop the inner "
+          "application first and then the outer one (application_stops_object, application_stops, application_events, "
+          "newApp_creates, nested_applications_stop_inner_first); the connection used "
           "is the local Ethernet chip's when known, the BMP's most specific one (connection_choice).  THE WIRE: for EVERY decorated "
           "method of the generated signature table, every argument passing and every stack, each request the method's rule emits "
           "(directly or through inner decorated calls, which are resolved again) is addressed to the chip (x, y) bound for the call "
@@ -43,7 +50,9 @@ CLAIM = dict(
           "source and proved well-formed for the decorator.  Tied to the code on every run: every decorated method x passing style "
           "(positional/keyword/context/default/mixed) x nesting, boards passed as lists / tuples, injected SCP failures at the "
           "n-th request, failed SDRAM / router allocation, applications that do not load, IOBUF chains, before_close callbacks "
-          "(raising, re-entrant, on application contexts), nested application blocks, discover_connections run for real on fake "
+          "(raising, re-entrant, on application contexts, registered once on a kept object), nested application blocks, context "
+          "objects kept and entered again while active / after exit / from nested application blocks / with exceptions and "
+          "update_current_context inside, discover_connections run for real on fake "
           "machines of several sizes (dead chips, Ethernet down, boards that do not answer) with every later datagram judged "
           "against the connection table in force when it was sent, plus random programs with all of these, run on the real "
           "controllers over recording fake connections; resolved keyword dictionaries, rejections, context snapshots compared "
@@ -62,7 +71,12 @@ CLAIM = dict(
           "fails (network error, failed allocation) is an input of the model taken from the run, not predicted.  The connection "
           "table after discover_connections is observed (snapshot per datagram), not predicted by the model; connections are "
           "identified by the host they were opened to.  F6 is fixed in the pinned tree: count_cores_in_state / "
-          "wait_for_cores_to_reach_state / load_application are driven like every other method."),
+          "wait_for_cores_to_reach_state / load_application are driven like every other method.  Restore verdict: after leaving "
+          "a block the arguments in force must equal those before it whenever the Lean model says they are restored (they are "
+          "not only when update_current_context inside the block changed an object that is also active below it - documented "
+          "aliasing, tagged exit:aliased-update, compared with the model exactly).  Not driven: one context object shared by "
+          "two controllers (a context pushes onto the stack of the controller that created it), callbacks registered while the "
+          "block is running."),
     technique="Lean 4 theorems over a hand-written model + translator for signatures/constants + differential correspondence + Lean spec as oracle")
 
 THEOREMS = ["signatures_wellformed", "every_method_has_rule", "precedence", "precedence_accepted", "ctxLookup_innermost",
@@ -70,6 +84,8 @@ THEOREMS = ["signatures_wellformed", "every_method_has_rule", "precedence", "pre
             "required_rejected", "rejected_names_required", "accepted_complete", "rejected_sends_nothing",
             "restore", "restore_application", "restore_inner", "restore_arguments",
             "stop_targets_application", "application_stops", "connection_choice_mc", "connection_choice_bmp",
+            # context objects (re-entered / reused)
+            "restore_block", "restore_arguments_static", "enter_events", "application_stops_object", "newApp_creates",
             # deepening round
             "application_events", "nested_applications_stop_inner_first", "block_events", "failing_call_unwinds",
             "rules_obey_signature_rule", "rules_chip_known", "carries_of_ruleOk", "wire_carries_resolved",
@@ -84,8 +100,13 @@ RULE = ("systematic part: every decorated method of MachineController and BMPCon
         "raising, callback raising with a later callback skipped, callback opening blocks and updating the context, user callback "
         "on an application context, failing stop signal, nested application blocks left by exception, BMP); discover_connections "
         "on fake machines up to 24x12 with dead chips / Ethernet down / boards not answering, followed by commands to chips of "
-        "the machine over the discovered table; random part: with-structured programs of depth <= 4 with blocks over random "
-        "subsets of argument names, before_close callbacks, application blocks (explicit / contextual id, failing stop, user "
+        "the machine over the discovered table; 10 programs with kept context OBJECTS (a / b with the same arguments / a again "
+        "with a command after every exit; application a / application(b) / a again; object used again after exit with an update "
+        "made during the first use; one object entered from nested application blocks; exception raised inside the re-entered "
+        "block; update_current_context inside the re-entered block; callbacks registered once on a kept object; BMP; a b a b a; "
+        "random interleavings of three objects with overlapping arguments, blocks and raises); random part: with-structured programs of depth <= 4 with blocks over random "
+        "subsets of argument names, a pool of kept context / application objects entered any number of times, before_close "
+        "callbacks, application blocks (explicit / contextual id, failing stop, user "
         "callbacks), update_current_context, raise, try/except, calls of random methods (incl. discover_connections) in random "
         "styles (incl. calls lacking required arguments) with random faults, over random connection tables (machine sizes, root "
         "chips, discovered Ethernet chips; BMP board/frame connections).  Contextual values are drawn pairwise distinct so that a "
@@ -226,6 +247,8 @@ class World(object):
     def __init__(self, cls, cfg, init):
         self.cls, self.cfg = cls, cfg
         self.log, self.mem = [], {}
+        self.objs, self.active = {}, []      # kept context objects by name; the with-blocks being executed
+        self.entered = set()
         self.state = {"kind": "scp" if cls == "MachineController" else "bmp", "world": self,
                       "machine": cfg.get("machine")}
         self.base_snap = None
@@ -514,6 +537,46 @@ def do_call(w, m, pos, kw, events, ev_id, fault=None):
     return res, exc, "rejected" in out, "failed" in out
 
 
+def register_callbacks(w, cm, cb, events):
+    """`cm.before_close(fn)`: fn runs the statements of `cb` inside the context being closed - on EVERY exit of
+    this context object (callbacks stay registered on the object)"""
+    def callback():
+        top = w.active[-1]
+        if top["cbmark"] is None:
+            top["cbmark"] = len(w.log)
+        run_prog(w, cb, events)
+    cm.before_close(callback)
+
+
+def enter_object(w, st, cm, is_app, events):
+    """`with cm: body` for a context object that may be fresh, active already, or used before"""
+    c = w.c
+    before = merged_of(c)
+    frame = {"cbmark": None, "cm": cm}
+    kind = "active-already" if any(f["cm"] is cm for f in w.active) else "used-before" if id(cm) in w.entered else "fresh"
+    w.entered.add(id(cm))
+    mark = [len(w.log)]
+    entered = [False]
+    try:
+        with cm:
+            entered[0] = True
+            w.active.append(frame)
+            events.append({"ev": "enter", "id": st["id"], "merged": merged_of(c), "object": kind})
+            try:
+                run_prog(w, st["body"], events)
+            finally:
+                mark[0] = len(w.log)
+                if is_app and st.get("stop_fails"):
+                    w.state["fail_signal"] = True
+    finally:
+        w.state["fail_signal"] = False
+        if entered[0]:
+            w.active.pop()
+            end = frame["cbmark"] if frame["cbmark"] is not None else len(w.log)
+            events.append({"ev": "exit", "id": st["id"], "merged": merged_of(c), "before": before,
+                           "app": is_app, "datagrams": w.log[mark[0]:end], "cb": frame["cbmark"] is not None})
+
+
 def run_prog(w, prog, events):
     c = w.c
     for st in prog:
@@ -531,44 +594,30 @@ def run_prog(w, prog, events):
                 run_prog(w, st["body"], events)
             except Exception:
                 pass
-        elif s in ("block", "app"):
-            before = merged_of(c)
-            if s == "block":
-                cm = c(**py_dict(st["ctx"], _OBJS))
-            else:
-                n0 = len(events)
-                cm, exc, rejected, _ = do_call(w, "application", st["pos"], st["kw"], events, st["id"])
-                if rejected:
-                    raise exc
-                events.pop()        # an accepted application() call is reported by the enter event
-                assert len(events) == n0
-            mark = [len(w.log)]
-            cbmark = [None]
-            entered = [False]
+        elif s in ("block", "new"):
+            cm = c(**py_dict(st["ctx"], _OBJS))
             if st.get("cb"):
-                # a `before_close` callback registered by the user (after the stop-signal callback of an
-                # application context): runs the statements of st["cb"] inside the context being closed
-                def callback(st=st):
-                    if cbmark[0] is None:
-                        cbmark[0] = len(w.log)
-                    run_prog(w, st["cb"], events)
-                cm.before_close(callback)
-            try:
-                with cm:
-                    entered[0] = True
-                    events.append({"ev": "enter", "id": st["id"], "merged": merged_of(c)})
-                    try:
-                        run_prog(w, st["body"], events)
-                    finally:
-                        mark[0] = len(w.log)
-                        if s == "app" and st["stop_fails"]:
-                            w.state["fail_signal"] = True
-            finally:
-                w.state["fail_signal"] = False
-                if entered[0]:
-                    end = cbmark[0] if cbmark[0] is not None else len(w.log)
-                    events.append({"ev": "exit", "id": st["id"], "merged": merged_of(c), "before": before,
-                                   "app": s == "app", "datagrams": w.log[mark[0]:end], "cb": cbmark[0] is not None})
+                register_callbacks(w, cm, st["cb"], events)
+            if s == "new":
+                w.objs[st["oid"]] = (cm, False)      # kept: entered by later `enter` statements, any number of times
+            else:
+                enter_object(w, st, cm, False, events)
+        elif s in ("app", "newapp"):
+            n0 = len(events)
+            cm, exc, rejected, _ = do_call(w, "application", st["pos"], st["kw"], events, st["id"])
+            if rejected:
+                raise exc
+            events.pop()        # an accepted application() call is reported by the enter event
+            assert len(events) == n0
+            if st.get("cb"):
+                register_callbacks(w, cm, st["cb"], events)
+            if s == "newapp":
+                w.objs[st["oid"]] = (cm, True)
+            else:
+                enter_object(w, st, cm, True, events)
+        elif s == "enter":
+            cm, is_app = w.objs[st["oid"]]
+            enter_object(w, st, cm, is_app, events)
         else:
             raise ValueError(s)
 
@@ -596,17 +645,23 @@ def run_impl(case):
 # --------------------------------------------------------------------------
 # comparing with the model, applying the oracles
 # --------------------------------------------------------------------------
-def with_failures(prog, failed):
-    """the program with `fails` set on the calls whose method body raised in the implementation run
-    (whether the network answers is an input of the model, not something it predicts)"""
+def with_failures(prog, failed, cbs=None):
+    """the program as the model reads it: `fails` set on the calls whose method body raised in the implementation
+    run (whether the network answers is an input of the model, not something it predicts); the callbacks
+    registered on a kept context object repeated on every `enter` of it"""
+    cbs = {} if cbs is None else cbs
     out = []
     for st in prog:
         st = dict(st)
         if st["s"] == "call":
             st["fails"] = bool(failed.get(st["id"]))
+        if st["s"] in ("new", "newapp"):
+            cbs[st["oid"]] = st.get("cb", [])
+        if st["s"] == "enter":
+            st["cb"] = cbs.get(st["oid"], [])
         for k in ("body", "cb"):
             if k in st:
-                st[k] = with_failures(st[k], failed)
+                st[k] = with_failures(st[k], failed, cbs)
         out.append(st)
     return out
 
@@ -651,8 +706,11 @@ def evaluate(ctx, cases):
             ctx.mismatch("c18.raised", "impl raised=%r model raised=%r" % (im["raised"], mo["raised"]), desc)
         if sorted_pairs(mo["merged"]) != im["merged"]:
             ctx.mismatch("c18.final", "final context differs: impl=%r model=%r" % (im["merged"], mo["merged"]), desc)
-        for key, e in iev.items():
-            m = mev.get(key)
+        if [(e["ev"], e["id"]) for e in mo["events"]] == [(e["ev"], e["id"]) for e in im["events"]]:
+            pairs = list(zip(im["events"], mo["events"]))      # (a kept object's callbacks repeat their ids)
+        else:
+            pairs = [(e, mev.get(key)) for key, e in iev.items()]
+        for e, m in pairs:
             if m is None:
                 continue
             if e["ev"] == "call":
@@ -716,16 +774,23 @@ def evaluate(ctx, cases):
                 if case.get("uses_ctx"):
                     nontriv = True
             elif e["ev"] == "enter":
+                ctx.tag("enter:object-%s" % e.get("object", "fresh"))
                 if sorted_pairs(m["merged"]) != e["merged"]:
                     ctx.mismatch("c18.enter", "context after entering block %d differs: impl=%r model=%r" % (e["id"], e["merged"], m["merged"]), desc)
             else:  # exit
                 ctx.tag("exit:%s" % ("app" if e["app"] else "block"))
                 if e.get("cb"):
                     ctx.tag("exit:with-callbacks")
+                if sorted_pairs(m["before"]) != e["before"]:
+                    ctx.mismatch("c18.exit", "context before block %d differs: impl=%r model=%r" % (e["id"], e["before"], m["before"]), desc)
                 if e["merged"] != e["before"]:
-                    ctx.violation("context-not-restored",
-                                  "after leaving block %d the arguments in force are %r, before it they were %r" % (
-                                      e["id"], e["merged"], e["before"]), desc)
+                    if m["restored"]:
+                        ctx.violation("context-not-restored",
+                                      "after leaving block %d the arguments in force are %r, before it they were %r" % (
+                                          e["id"], e["merged"], e["before"]), desc)
+                    else:
+                        # update_current_context inside the block changed an object that is also active below it
+                        ctx.tag("exit:aliased-update")
                 if sorted_pairs(m["merged"]) != e["merged"]:
                     ctx.mismatch("c18.exit", "context after leaving block %d differs: impl=%r model=%r" % (e["id"], e["merged"], m["merged"]), desc)
                 if e["app"]:
@@ -1071,6 +1136,97 @@ def extra_cases(ctx, rng, reps):
     return cases
 
 
+def reuse_cases(ctx, rng, reps):
+    """context OBJECTS kept and entered more than once: again while already active (with another block that
+    sets the same arguments in between), later after having been left, from nested application blocks, with
+    exceptions raised inside, with update_current_context inside a re-entered block, with callbacks"""
+    cases = []
+    mc, bmp = "MachineController", "BMPController"
+
+    def mk(cls, cfg, prog, label, exc=False):
+        cases.append({"cls": cls, "cfg": cfg, "init": None, "prog": prog, "depth": 1, "uses_ctx": True,
+                      "exc_exit": exc, "label": "reuse/" + label})
+
+    for rep in range(reps):
+        for variant in range(10):
+            cls = bmp if variant == 7 else mc
+            cfg = random_cfg(rng, cls)
+            g = Gen(rng, cls, cfg)
+            if cls == mc:
+                names = ["x", "y"]
+                probe = lambda: g.call("sdram_free", "default", caught=True)[0]
+
+                def alloc():
+                    st = g.call("sdram_alloc", "keyword", caught=True)[0]
+                    st["kw"] = [kv for kv in st["kw"] if kv[0] != "app_id"]      # application id from the context
+                    return st
+            else:
+                names = ["frame", "board"]
+                probe = lambda: g.call("read_adc", "default", caught=True)[0]
+                alloc = probe
+            fid = g.fresh_id
+            A, B = g.decoys(names), g.decoys(names)
+            new = lambda oid, ctxd, **k: dict({"s": "new", "oid": oid, "ctx": ctxd}, **k)
+            enter = lambda oid, body, **k: dict({"s": "enter", "id": fid(), "oid": oid, "body": body}, **k)
+            block = lambda ctxd, body: {"s": "block", "id": fid(), "ctx": ctxd, "body": body}
+            if variant in (0, 7):
+                # a; b (same arguments); a again: after the inner block b's values are in force again
+                prog = [new(1, A), enter(1, [probe(), block(B, [probe(), enter(1, [probe()]), probe()]), probe()]), probe()]
+            elif variant == 1:
+                # application objects: app a / application(b) / app a again
+                ia, ib = g.ctx_value("app_id"), g.ctx_value("app_id")
+                prog = [{"s": "newapp", "id": fid(), "oid": 1, "pos": [ia], "kw": []},
+                        enter(1, [{"s": "app", "id": fid(), "pos": [], "kw": [["app_id", ib]], "stop_fails": False,
+                                   "body": [alloc(), enter(1, [alloc()]), alloc()]}, alloc()]), alloc()]
+            elif variant == 2:
+                # kept and used again after it was left; an update made during the first use stays in the object
+                prog = [new(1, A), enter(1, [{"s": "update", "kv": g.decoys([names[0]])}, probe()]), probe(),
+                        enter(1, [probe()]), probe()]
+            elif variant == 3:
+                # the same object used from nested application blocks
+                ia, ib = g.ctx_value("app_id"), g.ctx_value("app_id")
+                app = lambda i, body: {"s": "app", "id": fid(), "pos": [i], "kw": [], "stop_fails": False, "body": body}
+                prog = [new(1, A), app(ia, [enter(1, [alloc(), app(ib, [enter(1, [probe(), alloc()]), alloc()]), alloc()])]), alloc()]
+            elif variant == 4:
+                # an exception raised inside the re-entered block: every block on the way removes its own entry
+                prog = [new(1, A), enter(1, [block(B, [{"s": "try", "body": [enter(1, [probe(), {"s": "raise"}])]}, probe()]), probe()]),
+                        {"s": "try", "body": [enter(1, [block(B, [enter(1, [{"s": "raise"}])])])]}, probe()]
+            elif variant == 5:
+                # update_current_context inside the re-entered block changes the ONE object, also where it is active below
+                prog = [new(1, A), enter(1, [block(g.decoys(names[:1]), [enter(1, [{"s": "update", "kv": g.decoys(names)}, probe()]),
+                                                                       probe()]), probe()]), probe()]
+            elif variant == 6:
+                # callbacks registered once on a kept object run on every exit of it, in the context being closed
+                prog = [new(1, A, cb=[probe()]), enter(1, [block(B, [enter(1, [probe()]), probe()])]), enter(1, []), probe()]
+            elif variant == 8:
+                # two kept objects interleaved: a b a b a, left one by one with a command after each exit
+                def nest(seq):
+                    if not seq:
+                        return [probe()]
+                    return [probe(), enter(seq[0], nest(seq[1:])), probe()]
+                prog = [new(1, A), new(2, B)] + nest([1, 2, 1, 2, 1][:rng.randrange(3, 6)]) + [probe()]
+            else:
+                # random interleavings of three kept objects (over-lapping argument subsets), blocks, raises
+                objs = {1: A, 2: B, 3: g.decoys(names[:1])}
+
+                def rnd(depth):
+                    out = [probe()]
+                    for _ in range(rng.randrange(1, 3)):
+                        r = rng.random()
+                        if depth >= 5 or r < 0.15:
+                            out.append(probe())
+                        elif r < 0.75:
+                            out += [enter(rng.choice(sorted(objs)), rnd(depth + 1)), probe()]
+                        elif r < 0.9:
+                            out += [block(g.decoys([rng.choice(names)]), rnd(depth + 1)), probe()]
+                        else:
+                            out += [{"s": "try", "body": [enter(rng.choice(sorted(objs)), rnd(depth + 1) + [{"s": "raise"}])]}, probe()]
+                    return out
+                prog = [new(k, v) for k, v in sorted(objs.items())] + rnd(0)
+            mk(cls, cfg, prog, str(variant), exc=variant in (4, 9))
+    return cases
+
+
 def systematic_cases(ctx, rng, reps):
     cases = []
     for (cls, name), sig in sorted(signatures().items()):
@@ -1178,7 +1334,12 @@ def random_prog(g, depth, budget):
             if rng.random() < 0.3:
                 app["cb"] = random_prog(g, depth + 1, budget)
             prog.append(app)
-        elif r < 0.82:
+        elif r < 0.80 and getattr(g, "pool", None):
+            # `with o:` for a kept object: possibly one that is active already, or one used before
+            oid, is_app = rng.choice(g.pool)
+            prog.append({"s": "enter", "id": g.fresh_id(), "oid": oid, "stop_fails": is_app and rng.random() < 0.15,
+                         "body": random_prog(g, depth + 1, budget)})
+        elif r < 0.84:
             prog.append({"s": "update", "kv": g.decoys([nm for nm in ctx_names(cls) if rng.random() < 0.4])})
         elif r < 0.92:
             prog.append({"s": "try", "body": random_prog(g, depth + 1, budget)})
@@ -1192,7 +1353,7 @@ def has_exc_exit(prog, inside=False):
     for st in prog:
         if st["s"] == "raise" and inside:
             return True
-        if st["s"] in ("block", "app") and (has_exc_exit(st["body"], True) or has_exc_exit(st.get("cb", []), True)):
+        if st["s"] in ("block", "app", "enter") and (has_exc_exit(st["body"], True) or has_exc_exit(st.get("cb", []), True)):
             return True
         if st["s"] == "try" and has_exc_exit(st["body"], inside):
             return True
@@ -1210,7 +1371,20 @@ def random_cases(ctx, rng, n):
         init = None
         if rng.random() < 0.3:
             init = g.decoys([nm for nm in ctx_names(cls) if rng.random() < 0.5])
-        prog = random_prog(g, 0, [14])
+        g.pool, head = [], []
+        if rng.random() < 0.5:
+            # context objects created up front and kept: the program may enter each any number of times
+            for oid in range(1, rng.randrange(2, 5)):
+                if cls == "MachineController" and rng.random() < 0.3:
+                    head.append({"s": "newapp", "id": g.fresh_id(), "oid": oid, "pos": [g.ctx_value("app_id")], "kw": []})
+                    g.pool.append((oid, True))
+                else:
+                    head.append({"s": "new", "oid": oid, "ctx": g.decoys([nm for nm in ctx_names(cls) if rng.random() < 0.5])})
+                    g.pool.append((oid, False))
+                if rng.random() < 0.25:
+                    pr = g.call("send_signal" if cls == "MachineController" else "read_adc", "default", caught=True)[0]
+                    head[-1]["cb"] = [pr] + ([{"s": "raise"}] if rng.random() < 0.2 else [])
+        prog = head + random_prog(g, 0, [14])
         cases.append({"cls": cls, "cfg": cfg, "init": init, "prog": prog, "depth": 1, "uses_ctx": True,
                       "exc_exit": has_exc_exit(prog)})
     return cases
@@ -1305,7 +1479,7 @@ def style_probe(ctx):
 def run(ctx):
     ctx.extra["rule"] = RULE
     ctx.assumptions += [
-        "each with-block uses a fresh context object (the `with c(...)` / `with mc.application(..)` idiom), exits are LIFO as `with` guarantees; callbacks are registered before the block is entered",
+        "blocks are `with` statements (well-bracketed enter/exit); a context object may be kept and entered any number of times, also while active; it is used with the controller that created it; callbacks are registered before the first entry",
         "board arguments are ints or non-empty lists / tuples of distinct non-negative ints (set_power / set_led only: the other BMP methods document a single board); led arguments are ints",
         "the transcription `bodyOf` of which requests / inner decorated calls a method makes is validated by exhaustive-over-methods correspondence, not proved; what IS proved about it: wire_carries_resolved and the passing-style theorems",
         "whether a method body fails (SCP error, failed allocation) is taken from the implementation run as an input of the model; the connection table rewritten by discover_connections is observed per datagram, not predicted",
@@ -1316,6 +1490,7 @@ def run(ctx):
         mult = 4 if ctx.extended else 1
         cases = systematic_cases(ctx, rng, ctx.scale(1, 6) * mult)
         cases += extra_cases(ctx, rng, ctx.scale(1, 8) * mult)
+        cases += reuse_cases(ctx, rng, ctx.scale(3, 40) * mult)
         cases += random_cases(ctx, rng, ctx.scale(400, 40000) * mult)
         for i in range(0, len(cases), 2000):
             evaluate(ctx, cases[i:i + 2000])
